@@ -232,20 +232,21 @@ def DeepLam.refresh (x : DeepLam) : DeepLam :=
 /-- the document object after `write()` -/
 def DeepPSD.refresh (x : DeepPSD) : DeepPSD := { x with layerAndMask := x.layerAndMask.refresh }
 
-/-- `LayerAndMaskInformation._read_body` with the typed block reader -/
+/-- `LayerAndMaskInformation._read_body` with the typed block reader (the gate is the skeleton's:
+`fp.tell() + 4 <= end_pos`; otherwise `None` and an empty `TaggedBlocks()`) -/
 def DeepLam.bodyDec (version endPos : Nat) : R DeepLam := fun d p => do
   let (li, p) ← LayerInfo.dec version d p
-  let (glm, p) ← (if isReadable 17 d p && decide (p < endPos) then optItem GlobalLayerMaskInfo.dec d p
-                   else .ok (none, p))
-  let (tbs, p) ← (if isReadable 1 d p then optItem (tblocksDec version 4 (some endPos)) d p
-                   else .ok (none, p))
-  .ok (⟨some li, glm, tbs⟩, p)
+  if p + 4 ≤ endPos then
+    let (glm, p) ← GlobalLayerMaskInfo.dec d p
+    let (tbs, p) ← tblocksDec version 4 (some endPos) d p
+    .ok (⟨some li, some glm, some tbs⟩, p)
+  else .ok (⟨some li, none, some []⟩, p)
 
 def DeepLam.dec (version : Nat) : R DeepLam := fun d p => do
   let (length, p) ← readU (secW version) d p
   let endPos := p + length
   let (x, _) ← (if length = 0 then .ok (⟨none, none, none⟩, p) else DeepLam.bodyDec version endPos d p)
-  .ok (x, endPos)
+  if overflows endPos d then .error .overflowError else .ok (x, endPos)                       -- `fp.seek(end_pos)`
 
 /-- `PSD.read` -/
 def DeepPSD.read : R DeepPSD := fun d p => do
